@@ -47,6 +47,7 @@ def cells(tier, seed):
         for p in (0, 1):
             out.append(mk(1, (N,), 0, p, "all", entry="multi"))
     out.append({"D": 0, "tables": True, "shape": (), "k": 0, "p": 0, "pairs": "none", "entry": "none"})
+    out.append({"D": 2, "dtypes": True, "shape": (3, 2), "k": 0, "p": 1, "pairs": "none", "entry": "none"})
     return out
 
 
@@ -59,6 +60,8 @@ def run_cell(cfg, cx):
     import ginjax.geometric as geom
     from jxsmt import sym as S, interp as I, refs
 
+    if cfg.get("dtypes"):
+        return _dtypes(cx)
     if cfg.get("tables"):
         _group_tables(cx)
         return
@@ -208,6 +211,37 @@ def run_cell(cfg, cx):
             cx.structural(f"M.multi.flags[lead={len(lead)},g={gkey(g)}]", tuple(meta["is_torus"]) == tuple(exp_flags),
                           f"is_torus {meta['is_torus']} expected {exp_flags}",
                           key=f"M.multi.flags:{ckey}:g={gkey(g)}:swap={tuple(exp_flags) != tuple(flags)}")
+
+
+def _dtypes(cx):
+    """The action is a pixel permutation times signs: on exactly representable data of any storage type (half precision, complex,
+    integer) every entry point returns exactly the defining formula's values.  Concrete facts (dtype
+    semantics are outside the real-arithmetic solver claims)."""
+    import jax.numpy as jnp
+    import ginjax.geometric as geom
+    from jxsmt import refs
+    D, shape = 2, (3, 2)
+    rng = np.random.default_rng(2)
+    for dt in ("float32", "float16", "complex64", "int32"):
+        for k in (0, 1, 2):
+            for g in (np.eye(2, dtype=int), np.array([[0, -1], [1, 0]]), np.array([[1, 0], [0, -1]])):
+                a = rng.integers(-3, 4, size=shape + (D,) * k).astype(np.complex128)
+                if dt == "complex64":
+                    a = a + 1j * rng.integers(-3, 4, size=a.shape)
+                x = jnp.asarray(a, dtype=dt)
+                want = refs.ref_action(D, np.asarray(a), 1, g)
+                outs = {"array": lambda: geom.times_group_element(D, x, 1, g),
+                        "image": lambda: geom.GeometricImage(x, 1, D, True).times_group_element(g).data,
+                        "multi": lambda: geom.MultiImage({(k, 1): x[None]}, D, True).times_group_element(g)[(k, 1)][0]}
+                for nm, fn in outs.items():
+                    try:
+                        o = fn()
+                        # (which inexact type the result is stored in is the library's choice; the VALUES have to be the formula's)
+                        ok = np.array_equal(np.asarray(o).astype(np.complex128), np.asarray(want, dtype=np.complex128))
+                        det = f"dtype {o.dtype}, max deviation {np.max(np.abs(np.asarray(o).astype(np.complex128) - want)):.3g}"
+                    except Exception as e:  # noqa: BLE001
+                        ok, det = False, f"raised {type(e).__name__}: {str(e)[:100]}"
+                    cx.structural(f"action on {dt} data, k={k}, g={gkey(g)}, entry {nm}", ok, det, key=f"dtype:{dt}:k={k}:g={gkey(g)}:{nm}")
 
 
 def _group_tables(cx):
